@@ -106,6 +106,12 @@ CLAIMED = {
    design_ref="DESIGN.md 4.8, 5 (C18)",
    note="State cracking (crack_btree/crack_bucket) is trusted.",
    technique="predicate-inventory extraction from clang AST / Python ast, sibling agreement, small decision table for range propagation"),
+ "C02": dict(
+   category="other",
+   text="Leaf-level and cursor-level pieces of the range machinery, decided from source and exhaustive over their finite abstract spaces: the endpoint chosen by C Bucket_findRangeEnd (22 translation units) and Python _range for every valuation of (found, low/high, exclusive[, bound given]) is extracted as an affine offset of the search index and equals the specification; omitted bound and None are tested together at every range entry point; along every path of the two loops of BTreeItems_seek the updates of (pseudoindex, delta, currentoffset) are the affine functions the leaf geometry dictates (polynomial normalisation); the Python lazy sequence continues to the next leaf unless a later leaf yielded nothing (decision table); exclusion flags of omitted bounds must not be re-applied per leaf. The tree-level endpoint search with move-left/right repair and the dependence on reachable tree shapes are NOT decided.",
+   design_ref="DESIGN.md 4.4, 5 (C02)",
+   note="Known finding: Python keys(excludemin/excludemax) with the bound omitted drops one key per leaf. Out of reach (DESIGN 9): C single-interior-child root, Python minKey gap.",
+   technique="decision-table extraction with affine/polynomial values (clang AST + Python ast), structural pairing rule"),
 }
 
 NA_PENDING = "check not built yet (engine under construction); see DESIGN.md section 11"
